@@ -674,9 +674,10 @@ proof fn lemma_weighted_meets_outdegree<W>(g: AdjacencyListWeighted<W>, u: usize
     lemma_map_size(row, out, f);
 }
 
-/// OutNeighborsWeighted::out_neighbors_weighted (proved in weighted_core at the instance W = isize only - with a generic W
-/// Verus cannot discharge the bounds of vstd's Map adapter axioms - while `Dgw` is the instance W = usize of the same
-/// generic impl).  From the proved clauses (items are out-neighbours with their weights, ids strictly ascending, coverage
+/// OutNeighborsWeighted::out_neighbors_weighted (proved in weighted_core at the instance W = isize - with a generic W
+/// Verus cannot discharge the bounds of vstd's Map adapter axioms; `Dgw` is the instance W = usize of the same generic
+/// impl, which is proved separately in unit weighted_onw_usize together with the usize twin of this lemma,
+/// `lemma_weighted_usize_meets_out_neighbors_weighted`).  From the proved clauses (items are out-neighbours with their weights, ids strictly ascending, coverage
 /// if the iterator is driven until it returns None): protocol, no vertex twice, soundness (Dgw clauses 1, 2, 3, 5)
 /// unconditionally; coverage (clause 4) only under `r.will_return_none()`.
 proof fn lemma_weighted_meets_out_neighbors_weighted<'a, I: Iterator<Item = (usize, &'a isize)>>(g: AdjacencyListWeighted<isize>, u: usize, r: I)
